@@ -43,6 +43,9 @@ func c12Scenario(op, in string, bound int) *Scenario {
 	if op == "verify" {
 		d.Pre = map[string]byte{"a/b": 'd', "a/x": 'd'} // the roots the block alphabet uses exist: verification walks them
 	}
+	if op == "mkdir" || op == "out-dry" {
+		d.Exts = []string{"b", ".go"} // childless nodes named b / *.go are files (a childless root included)
+	}
 	return &Scenario{Name: fmt.Sprintf("c12/%s/%q", op, in), Prop: "C12", Workers: w2, Bound: bound,
 		New: func() Exec { return &c12Exec{DrvRun: d.New()} }}
 }
@@ -87,9 +90,33 @@ func init() {
 				}
 			})
 		}
+		// the white space Unicode knows beyond blank, tab, CR and LF, as tokens next to the structural bytes
+		tokens := []string{"-", " ", "\n", "a", "\v", "\f", "\u00a0", "\u0085", "\u3000"}
+		maxT := 3
+		if c.Thorough() {
+			maxT = 4
+		}
+		c.Bound("massive_whitespace_tokens_up_to", fmt.Sprint(maxT))
+		for L := 1; L <= maxT && !c.Expired(); L++ {
+			enum.Tuples(L, len(tokens), func(t []int) {
+				exotic := false
+				in := ""
+				for _, x := range t {
+					exotic = exotic || x >= 4
+					in += tokens[x]
+				}
+				if !exotic || !c.Take() || c.Expired() {
+					return
+				}
+				c.Inc("unicode_whitespace_inputs")
+				for _, op := range []string{"out-text", "out-json", "walk"} {
+					e.explore(c12Scenario(op, in, 0), 0)
+				}
+			})
+		}
 		// grammar-aware family: every sequence of up to 4 root blocks over a block alphabet that contains each way a
 		// block can fail (so that all workers of a stage can be lost while blocks are still coming), 2 workers per stage
-		blocks := []string{"- a\n  - b\n", "- a\n  -\n", "- a\n      - b\n", "- a/b\n", "# h\n", "\n", "  - x\n", "- a\n\t- b\n"}
+		blocks := []string{"- a\n  - b\n", "- a\n  -\n", "- a\n      - b\n", "- a/b\n", "# h\n", "\n", "  - x\n", "- a\n\t- b\n", "- r.go\n", " \v\u00a0\n"}
 		maxB := 4
 		if c.Thorough() {
 			maxB = 5
